@@ -76,7 +76,7 @@ func run(c *vf.Ctx, name string, public, withCB bool, nblocks int) {
 		return
 	}
 	g := rig.NewGen(w, c.Rand("gen/"+name))
-	g.Kinds = append(append([]string{}, rig.DefaultKinds...), "deploy-fail")
+	g.Kinds = append(append([]string{}, rig.DefaultKinds...), "deploy-fail", "multicall", "multicall-fail", "multicall-fail")
 	if !public {
 		// chains that are not public know REDEPLOY (the creator replaces a contract's code)
 		g.Kinds = append(g.Kinds, "redeploy", "redeploy-fail", "redeploy-fail", "call-inc", "deploy")
